@@ -601,6 +601,43 @@ Proof.
       rewrite (native_slim_roundtrip zero m _ H W Hm Hz HH). apply (zero_masked_idem m n H W Hm Hf HH).
 Qed.
 
+(* ---- apply_mask (phase 3): the object read under its own mask m, re-masked with a second mask m2 of the same shape:
+   the slim reading is the row-major gather, over the unmasked pixels of m2, of the native reading under m (so a pixel
+   that m masks reads zero even where m2 unmasks it), the native reading is the native reading under m with the pixels
+   masked by m2 zeroed as well; and the result is again a well-shaped object of m2 *)
+Lemma obs_native_rect (m : mask) (f : form) H W :
+  rectb H W m = true -> 0 < H -> wfb m H W f = true -> rectb H W (obs_native zero m f) = true.
+Proof.
+  intros Hm HH Hf. destruct (obs_native_is_scatter_of_obs_slim m f H W Hm HH Hf) as [E _]. rewrite E.
+  apply (native_from_rect zero m _ H W Hm HH).
+Qed.
+Theorem obs_of_apply_mask (m m2 : mask) (f : form) H W :
+  rectb H W m = true -> rectb H W m2 = true -> 0 < H -> wfb m H W f = true ->
+  obs_slim zero m2 (apply_mask zero m m2 f) = map (get2 zero (obs_native zero m f)) (native_for_slim m2) /\
+  obs_native zero m2 (apply_mask zero m m2 f) = zero_masked zero m2 (obs_native zero m f) /\
+  wfb m2 H W (apply_mask zero m m2 f) = true.
+Proof.
+  intros Hm Hm2 HH Hf. pose proof (obs_native_rect m f H W Hm HH Hf) as Hr. unfold apply_mask.
+  assert (Hw : wfb m2 H W (Native (obs_native zero m f)) = true) by exact Hr.
+  destruct (obs_of_convert m2 _ false H W Hm2 HH Hw) as [Es En].
+  destruct (obs_of_stored_native m2 _ H W Hm2 Hr HH) as [Es' En'].
+  split; [now rewrite Es | split; [now rewrite En |]].
+  apply (convert_wf m2 _ false H W Hm2 HH Hw).
+Qed.
+(* a pixel masked by EITHER mask reads zero, a pixel unmasked in both keeps the value read under m *)
+Theorem apply_mask_pointwise (m m2 : mask) (f : form) H W p :
+  rectb H W m = true -> rectb H W m2 = true -> 0 < H -> wfb m H W f = true -> fst p < H -> snd p < W ->
+  get2 zero (obs_native zero m2 (apply_mask zero m m2 f)) p =
+  if mget m2 p || mget m p then zero else get2 zero (obs_native zero m f) p.
+Proof.
+  intros Hm Hm2 HH Hf Hy Hx. destruct (obs_of_apply_mask m m2 f H W Hm Hm2 HH Hf) as [_ [En _]]. rewrite En.
+  pose proof (obs_native_rect m f H W Hm HH Hf) as Hr.
+  rewrite (get2_zero_masked zero m2 _ H W p Hm2 Hr Hy Hx).
+  destruct (mget m2 p); [reflexivity|]. cbn [orb].
+  destruct (mget m p) eqn:E; [|reflexivity].
+  apply (obs_native_masked_is_zero m f H W p Hm HH Hf E).
+Qed.
+
 (* ---- elementwise arithmetic on the stored array commutes with the slim reading; the native reading is re-zeroed *)
 Theorem obs_of_fmap (g : A -> A) (m : mask) (f : form) H W :
   rectb H W m = true -> 0 < H -> wfb m H W f = true ->
